@@ -52,7 +52,12 @@ func dupType2() reflect.Type {
 }
 
 var concreteTys = []int{0, 1, 2, 3, 4, 5}
-var allTys = []int{0, 1, 2, 3, 4, 5, 10, 11}
+
+// unnamed (composite) types: []int = 7, map[string]int = 8, chan int = 9,
+// <-chan int = 13 (assignable from chan int but a different type), *T0 = 14
+// (implements I0; its zero value is a nil pointer)
+var extraTys = []int{7, 8, 9, 13, 14}
+var allTys = []int{0, 1, 2, 3, 4, 5, 7, 8, 9, 13, 14, 10, 11}
 var ifaceTys = []int{10, 11}
 
 // implementer used to carry a serial inside an interface-typed result
@@ -65,6 +70,15 @@ func init() {
 	for id, t := range tyOf {
 		tidOfString[t.String()] = id
 		tidOfType[t] = id
+	}
+	tyOf[7] = reflect.TypeOf([]int(nil))
+	tyOf[8] = reflect.TypeOf(map[string]int(nil))
+	tyOf[9] = reflect.TypeOf((chan int)(nil))
+	tyOf[13] = reflect.TypeOf((<-chan int)(nil))
+	tyOf[14] = reflect.TypeOf((*T0)(nil))
+	for _, id := range extraTys {
+		tidOfString[tyOf[id].String()] = id
+		tidOfType[tyOf[id]] = id
 	}
 	tyOf[30], tyOf[31] = dupType(), dupType2()
 	tyOf[6] = reflect.TypeOf(E0(0))
@@ -102,10 +116,31 @@ func universeTerm() string {
 	return fmt.Sprintf("(mkU [10; 11; 12] %s)", slist(impl))
 }
 
-// mkVal builds a Go value of concrete type tid carrying serial.
+// mkVal builds a Go value of concrete type tid carrying serial; serial 0 is
+// the zero value of the type (0, nil slice/map/chan/pointer).
 func mkVal(tid int, serial int) reflect.Value {
-	v := reflect.New(tyOf[tid]).Elem()
-	v.SetInt(int64(serial))
+	t := tyOf[tid]
+	v := reflect.New(t).Elem()
+	if serial == 0 {
+		return v
+	}
+	switch t.Kind() {
+	case reflect.Slice:
+		v.Set(reflect.MakeSlice(t, 1, 1))
+		v.Index(0).SetInt(int64(serial))
+	case reflect.Map:
+		v.Set(reflect.MakeMap(t))
+		v.SetMapIndex(reflect.ValueOf(""), reflect.ValueOf(serial))
+	case reflect.Chan:
+		ch := reflect.MakeChan(reflect.ChanOf(reflect.BothDir, t.Elem()), serial)
+		v.Set(ch.Convert(t))
+	case reflect.Ptr:
+		p := reflect.New(t.Elem())
+		p.Elem().SetInt(int64(serial))
+		v.Set(p)
+	default:
+		v.SetInt(int64(serial))
+	}
 	return v
 }
 
@@ -130,6 +165,25 @@ func serialOf(v reflect.Value) int {
 			return 0
 		}
 		v = v.Elem()
+	}
+	switch v.Kind() {
+	case reflect.Slice:
+		if v.Len() == 0 {
+			return 0
+		}
+		return int(v.Index(0).Int())
+	case reflect.Map:
+		if x := v.MapIndex(reflect.ValueOf("")); x.IsValid() {
+			return int(x.Int())
+		}
+		return 0
+	case reflect.Chan:
+		return v.Cap()
+	case reflect.Ptr:
+		if v.IsNil() {
+			return 0
+		}
+		return int(v.Elem().Int())
 	}
 	return int(v.Int())
 }
